@@ -698,7 +698,10 @@ impl CompositionGraph {
         })?;
 
         // Add dependency edges to any existing defined types that reference this one
-        for (other_ty, other) in &self.defined {
+        // (in node order, so that the encoding does not depend on hash map iteration order)
+        let mut others = self.defined.iter().collect::<Vec<_>>();
+        others.sort_by_key(|(_, n)| **n);
+        for (other_ty, other) in others {
             other_ty.visit_defined_types(&self.types, &mut |_, id| {
                 let dep_ty = Type::Value(ValueType::Defined(id));
                 if dep_ty == ty
